@@ -396,8 +396,17 @@ class MPO(MPSGeometry):
         return j_IdL, j_IdR, other_cycles, j_upper, j_lower
 
     def copy(self):
-        """Make a shallow copy of `self`."""
-        return copy.copy(self)
+        """Make a shallow copy of `self`.
+
+        The copy shares the `W` tensors and the sites with `self`, but has its own lists, such that in-place
+        methods of the copy (:meth:`sort_legcharges`, :meth:`set_W`, ...) do not change `self`.
+        """
+        cp = copy.copy(self)
+        cp.sites = list(self.sites)
+        cp._W = list(self._W)
+        cp.IdL = list(self.IdL)
+        cp.IdR = list(self.IdR)
+        return cp
 
     def save_hdf5(self, hdf5_saver, h5gr, subpath):
         """Export `self` into a HDF5 file.
